@@ -1,5 +1,6 @@
 import numpy.fft as ffto
 
+from autograd.core import without_out, without_out_args
 from autograd.extend import defvjp, primitive, vspace
 
 from . import numpy_wrapper as anp
@@ -12,6 +13,8 @@ wrap_namespace(ffto.__dict__, globals())
 # TODO: make fft gradient work for a repeated axis,
 # e.g. by replacing fftn with repeated calls to 1d fft along each axis
 def fft_grad(get_args, fft_fun, ans, x, *args, **kwargs):
+    # the adjoint transform takes the same options, except the caller's out= buffer (it holds the primal result)
+    args, kwargs = without_out_args(args, ans), without_out(kwargs)
     axes, s, norm = get_args(x, *args, **kwargs)
     check_no_repeated_axes(axes)
     vs = vspace(x)
@@ -29,6 +32,7 @@ defvjp(ifftn, lambda *args, **kwargs: fft_grad(get_fftn_args, ifftn, *args, **kw
 
 
 def rfft_grad(get_args, irfft_fun, ans, x, *args, **kwargs):
+    args, kwargs = without_out_args(args, ans), without_out(kwargs)
     axes, s, norm = get_args(x, *args, **kwargs)
     vs = vspace(x)
     gvs = vspace(ans)
@@ -52,6 +56,7 @@ def rfft_grad(get_args, irfft_fun, ans, x, *args, **kwargs):
 
 
 def irfft_grad(get_args, rfft_fun, ans, x, *args, **kwargs):
+    args, kwargs = without_out_args(args, ans), without_out(kwargs)
     axes, gs, norm = get_args(x, *args, **kwargs)
     vs = vspace(x)
     gvs = vspace(ans)
